@@ -181,7 +181,7 @@ func runCheck(args []string) int {
 		if spec.Filter == "locks" {
 			var keep []*Obligation
 			for _, o := range r.res.Script.obls {
-				if o.Kind == "lock" || (strings.HasPrefix(o.Kind, "pre@") && strings.HasPrefix(o.Label, "locks")) || (o.Cover && o.Label == "pre") ||
+				if o.Kind == "lock" || strings.HasPrefix(o.Label, "locks") || (o.Cover && o.Label == "pre") ||
 					((o.Kind == "inv-init" || o.Kind == "inv-pres") && strings.Contains(o.Label, ":locks")) {
 					keep = append(keep, o)
 				}
